@@ -69,7 +69,8 @@ class LabelParser:
         if t.startswith("[", i):
             for j, m in self.mag_label(i + 1):
                 if t.startswith(" ", j):
-                    for k, d2, m2 in self.label(j + 1):
+                    # the unitless unit (empty product) has the empty label, so "[M ]" is a scaled unitless unit
+                    for k, d2, m2 in self.label(j + 1) + ([(j + 1, {}, {})] if t.startswith("]", j + 1) else []):
                         if t.startswith("]", k):
                             out.append((k + 1, d2, None if (m is None or m2 is None) else model.emul(m, m2)))
         if t.startswith("EQUIV{", i):
